@@ -7,6 +7,7 @@ import Arc.Model.C12
     rec <oracle>      ReconcileOrphanedFiles                       -> rec=<found>/<deleted>/<errors>|rec=crash  <state>
     scan <oracle>     ScanAndRegisterFiles                         -> scan=ok|scan=crash  <state>
     cycle <oracle>    RunMigrationCycle                            -> cycle=ok|cycle=crash  <state>
+    age               > 48 h pass (migrated_at leaves the reconcile window)      -> ok <state>
     obs               what is on disk / in SQLite / what a query returns -> <state> globs=<tiers> vis=<n>
 
   oracle: string over o(k) f(ail) c(rash) r(source read of the copy fails), "-" = empty.  -/
@@ -29,7 +30,7 @@ def tierStr : Tier → String | .hot => "hot" | .cold => "cold"
 
 def stStr (s : FileSt) : String :=
   let p := match s.part with | none => "-" | some k => toString k
-  s!"h={b01 s.hot} c={b01 s.cold} p={p} t={tierStr s.tier} pend={s.pend}"
+  s!"h={b01 s.hot} c={b01 s.cold} p={p} t={tierStr s.tier} pend={s.pend} r={b01 s.recent}"
 
 def stepC12 (d : DS) (fs : List String) : DS × String :=
   match fs with
@@ -66,6 +67,7 @@ def stepC12 (d : DS) (fs : List String) : DS × String :=
       let res := if r.2 then "crash" else "ok"
       ({ d with s := r.1 }, s!"cycle={res} {stStr r.1}")
     | none => (d, "bad-op")
+  | ["age"] => ({ d with s := ageOp d.s }, s!"ok {stStr (ageOp d.s)}")
   | ["obs"] =>
     let g := globbed (actualTiers d.sibHot d.sibCold d.s)
     let gs := if g.isEmpty then "-" else ",".intercalate (g.map tierStr)
